@@ -103,10 +103,11 @@ Record fut := { f_in : nat;              (* future_in_data->data: the copy a con
                 f_nested : list nat;
                 f_guard : bool;          (* remote_recv_guard *)
                 f_rank : Z }.
-Definition key := (Z * Z * Z * Z)%type.  (* rank, class, k, r: one repo entry (flow 0) *)
+Definition key := (Z * Z * Z * Z * Z)%type.  (* rank, class, k, r, flow index: one slot of a repo entry *)
 Inductive ev :=
 | EConv (src : nat) (sty scnt : Z) (dst : nat) (dty : Z)
-| EBody (c k r : Z) (cp : nat) (dtt : Z) (data : tile).
+| EBody (c k r : Z) (cp : nat) (dtt : Z) (data : tile)      (* flow A at body entry *)
+| EBody2 (c k r : Z) (cp : nat) (dtt : Z) (data : tile).    (* second data flow B at body entry *)
 Record st := { copies : list copy; futs : list fut; repo : list (key * nat); evs : list ev; err : Z }.
 
 Definition dcopy : copy := {| cp_dtt := 0; cp_rank := 0; cp_data := [] |}.
@@ -138,8 +139,8 @@ Definition fut_guard (F : fut) g := {| f_in := f_in F; f_m0 := f_m0 F; f_m1 := f
    f_dst := f_dst F; f_val := f_val F; f_nested := f_nested F; f_guard := g; f_rank := f_rank F |}.
 
 Definition key_eqb (a b : key) : bool :=
-  let '(a1, a2, a3, a4) := a in let '(b1, b2, b3, b4) := b in
-  (a1 =? b1) && (a2 =? b2) && (a3 =? b3) && (a4 =? b4).
+  let '(a1, a2, a3, a4, a5) := a in let '(b1, b2, b3, b4, b5) := b in
+  (a1 =? b1) && (a2 =? b2) && (a3 =? b3) && (a4 =? b4) && (a5 =? b5).
 Fixpoint assoc (l : list (key * nat)) (k : key) : option nat :=
   match l with [] => None | (k', v) :: r => if key_eqb k' k then Some v else assoc r k end.
 Definition repo_get (s : st) (k : key) : option nat := assoc (repo s) k.
@@ -278,11 +279,22 @@ Definition from_desc (E : env) (s : st) (X : nat) (rank ty td : Z) : st * option
 
 (* ---------------------------------------------------------------- programs *)
 Inductive input := InD (ty td : Z) | InT (p sh ti tri : Z).
-Inductive output := OutE (q to tro : Z) | OutM (ty td : Z).
-Record cls := { c_R : Z; c_mod : bool; c_in : input; c_outs : list output }.
+(* OutE: A -> A Cq(..) ; OutF: A -> B Cq(..) (feeds the SECOND data flow of class q) ; OutM: A -> descA(..) *)
+Inductive output := OutE (q to tro : Z) | OutF (q to tro : Z) | OutM (ty td : Z).
+(* c_in2: optional second data flow  READ B <- A Cp(..)  (never an InD, no outputs); c_bfirst: B is
+   declared before A in the JDF.  Control flows (gates) carry no data and are not in the model. *)
+Record cls := { c_R : Z; c_mod : bool; c_in : input; c_outs : list output; c_in2 : option input; c_bfirst : bool }.
 Record prog := { p_nranks : Z; p_mb : Z; p_esz : Z; p_nt : Z; p_owner : list Z; p_cls : list cls; p_fixed : bool }.
 
-Definition dcls : cls := {| c_R := 1; c_mod := false; c_in := InD 0 0; c_outs := [] |}.
+Definition dcls : cls := {| c_R := 1; c_mod := false; c_in := InD 0 0; c_outs := []; c_in2 := None; c_bfirst := false |}.
+(* jdf_flatten_function: data flows with an output dependency are numbered first, then the others, in
+   declaration order *)
+Definition fidx_A (C : cls) : Z :=
+  match c_in2 C with
+  | None => 0
+  | Some _ => if c_bfirst C && match c_outs C with [] => true | _ => false end then 1 else 0
+  end.
+Definition fidx_B (C : cls) : Z := 1 - fidx_A C.
 Definition pcls (P : prog) (c : Z) : cls := nth (Z.to_nat c) (p_cls P) dcls.
 Definition base (P : prog) (c : Z) : Z :=
   fold_right Z.add 0 (map (fun C => p_nt P * c_R C) (firstn (Z.to_nat c) (p_cls P))).
@@ -290,7 +302,7 @@ Definition tile_of (P : prog) (c k r : Z) : Z := base P c + k * c_R (pcls P c) +
 Definition rank_of_tile (P : prog) (t : Z) : Z := (nth (Z.to_nat t) (p_owner P) 0) mod (p_nranks P).
 
 (* jdf_reorder_dep_list_by_type on the output dependencies *)
-Definition out_lt (o : output) : Z := match o with OutE _ to _ => to | OutM ty _ => ty end.
+Definition out_lt (o : output) : Z := match o with OutE _ to _ => to | OutF _ to _ => to | OutM ty _ => ty end.
 Fixpoint group_lt (fuel : nat) (l : list output) : list output :=
   match fuel with
   | O => l
@@ -303,20 +315,22 @@ Fixpoint group_lt (fuel : nat) (l : list output) : list output :=
 Definition order_outs (l : list output) : list output :=
   filter (fun x => out_lt x =? 0) l ++ group_lt (length l) (filter (fun x => negb (out_lt x =? 0)) l).
 
-Record succ := { s_q : Z; s_k : Z; s_r : Z; s_to : Z; s_tro : Z; s_ti : Z; s_tri : Z; s_rank : Z }.
+Record succ := { s_q : Z; s_k : Z; s_r : Z; s_fl : Z; s_to : Z; s_tro : Z; s_ti : Z; s_tri : Z; s_rank : Z }.
 (* the successors of instance (c, k, 0) in the order of the generated iterate_successors *)
 Definition succs (P : prog) (c k : Z) : list succ :=
+  let mk (q fl to tro : Z) (i : input) :=
+    match i with
+    | InT _ sh ti tri =>
+        let kq := (k + p_nt P - sh) mod (p_nt P) in
+        map (fun r => {| s_q := q; s_k := kq; s_r := r; s_fl := fl; s_to := to; s_tro := tro; s_ti := ti; s_tri := tri;
+                         s_rank := rank_of_tile P (tile_of P q kq r) |}) (zseq 0 (c_R (pcls P q)))
+    | InD _ _ => []
+    end in
   flat_map (fun o =>
     match o with
     | OutM _ _ => []
-    | OutE q to tro =>
-        match c_in (pcls P q) with
-        | InT _ sh ti tri =>
-            let kq := (k + p_nt P - sh) mod (p_nt P) in
-            map (fun r => {| s_q := q; s_k := kq; s_r := r; s_to := to; s_tro := tro; s_ti := ti; s_tri := tri;
-                             s_rank := rank_of_tile P (tile_of P q kq r) |}) (zseq 0 (c_R (pcls P q)))
-        | InD _ _ => []
-        end
+    | OutE q to tro => mk q (fidx_A (pcls P q)) to tro (c_in (pcls P q))
+    | OutF q to tro => match c_in2 (pcls P q) with Some i => mk q (fidx_B (pcls P q)) to tro i | None => [] end
     end) (order_outs (c_outs (pcls P c))).
 
 Definition same_msg (a b : succ) : bool := (s_to a =? s_to b) && (s_tro a =? s_tro b).
@@ -341,26 +355,26 @@ Definition recv (E : env) (P : prog) (s : st) (c k : Z) (X : nat) (q : Z) (L : l
       let payload := pack (lay E sty 1) (cp_data (getc s X)) in
       let n := length payload in
       if negb (forallb (fun u => Nat.eqb (length (lay E (rty u) 1)) n) L) then set_err s 3 else
-      let pk := (q, c, k, 0) in
+      let pk := (q, c, k, 0, 0) in
       let packed := negb (forallb (fun u => rty u =? rty u0) L') in
       let id := length (copies s) in
       if packed then
         let s1 := add_copy s {| cp_dtt := SH_PACKED; cp_rank := q; cp_data := payload |} in
-        fst (fold_left (fun sc u => setup_recv_packed E (p_fixed P) (fst sc) pk (q, s_q u, s_k u, s_r u) id q (snd sc) (rty u))
+        fst (fold_left (fun sc u => setup_recv_packed E (p_fixed P) (fst sc) pk (q, s_q u, s_k u, s_r u, s_fl u) id q (snd sc) (rty u))
                        L (s1, None))
       else
         let s1 := add_copy s {| cp_dtt := rty u0; cp_rank := q; cp_data := unpack (lay E (rty u0) 1) payload (e_fresh E) |} in
-        fst (fold_left (fun sc u => setup_recv_plain E (p_fixed P) (fst sc) pk (q, s_q u, s_k u, s_r u) id q (snd sc))
+        fst (fold_left (fun sc u => setup_recv_plain E (p_fixed P) (fst sc) pk (q, s_q u, s_k u, s_r u, s_fl u) id q (snd sc))
                        L (s1, None))
   end.
 
 (* release_deps of instance (c, k, r) on rank rho with output copy X *)
 Definition release (E : env) (P : prog) (s : st) (c k r rho : Z) (X : nat) : st :=
-  let pk := (rho, c, k, r) in
+  let pk := (rho, c, k, r, 0) in
   let S := succs P c k in
   let s1 := fst (fold_left (fun sc u =>
                    if s_rank u =? rho
-                   then setup_local E (p_fixed P) (fst sc) pk (rho, s_q u, s_k u, s_r u) X rho (snd sc) (s_to u)
+                   then setup_local E (p_fixed P) (fst sc) pk (rho, s_q u, s_k u, s_r u, s_fl u) X rho (snd sc) (s_to u)
                    else sc) S (s, None)) in
   fold_left (fun s q =>
      if q =? rho then s else
@@ -382,30 +396,44 @@ Definition writeback (E : env) (s : st) (C : cls) (t : nat) (X : nat) : st :=
   | _ => s
   end.
 
+(* data_lookup of one input flow (flow index fl) of instance (c, k, r) on rank rho *)
+Definition lookup_in (E : env) (P : prog) (s : st) (rho c k r fl : Z) (t : Z) (i : input) : st * option nat :=
+  let me := (rho, c, k, r, fl) in
+  match i with
+  | InD ty td => from_desc E s (Z.to_nat t) rho ty td
+  | InT p sh ti tri =>
+      match repo_get s me with
+      | Some f => let '(s', d) := get_from_dep E s f ti in (repo_del s' me, d)
+      | None => match repo_get s (rho, p, (k + sh) mod (p_nt P), 0, 0) with
+                | Some f => get_from_dep E s f ti
+                | None => (set_err s 2, None)
+                end
+      end
+  end.
+
 Definition run_task (E : env) (P : prog) (s : st) (c k r : Z) : st :=
   if negb (err s =? 0) then s else
   let C := pcls P c in
   let t := tile_of P c k r in
   let rho := rank_of_tile P t in
-  let me := (rho, c, k, r) in
-  let '(s1, ocp) :=
-    match c_in C with
-    | InD ty td => from_desc E s (Z.to_nat t) rho ty td
-    | InT p sh ti tri =>
-        match repo_get s me with
-        | Some f => let '(s', d) := get_from_dep E s f ti in (repo_del s' me, d)
-        | None => match repo_get s (rho, p, (k + sh) mod (p_nt P), 0) with
-                  | Some f => get_from_dep E s f ti
-                  | None => (set_err s 2, None)
-                  end
-        end
-    end in
+  let '(s1, ocp) := lookup_in E P s rho c k r (fidx_A C) t (c_in C) in
   match ocp with
   | None => set_err s1 2
   | Some X =>
-      let cp := getc s1 X in
-      let s2 := add_ev s1 (EBody c k r X (cp_dtt cp) (cp_data cp)) in
-      let s3 := if c_mod C then setc_data s2 X (map (Z.lxor (c + 1)) (cp_data cp)) else s2 in
+      let '(s1b, ok2, e2) :=
+        match c_in2 C with
+        | None => (s1, true, None)
+        | Some i2 => let '(sb, ob) := lookup_in E P s1 rho c k r (fidx_B C) t i2 in
+                     match ob with
+                     | Some Y => (sb, true, Some (EBody2 c k r Y (cp_dtt (getc sb Y)) (cp_data (getc sb Y))))
+                     | None => (sb, false, None)
+                     end
+        end in
+      if negb ok2 then set_err s1b 2 else
+      let cp := getc s1b X in
+      let s2 := add_ev s1b (EBody c k r X (cp_dtt cp) (cp_data cp)) in
+      let s2b := match e2 with Some e => add_ev s2 e | None => s2 end in
+      let s3 := if c_mod C then setc_data s2b X (map (Z.lxor (c + 1)) (cp_data cp)) else s2b in
       let s4 := writeback E s3 C (Z.to_nat t) X in
       release E P s4 c k r rho X
   end.
